@@ -44,6 +44,7 @@ class FunctionReport:
         self.used_models: set[str] = set()
         self.refuted: list[dict] = []
         self.vacuous = False
+        self.bounded = None
         self.source_file = ""
         self.source_lines = (0, 0)
 
@@ -88,6 +89,7 @@ class FunctionReport:
             "obligations": list(self.obligations.values()),
             "undecided_reason": self.undecided_reason,
             "vacuous": self.vacuous,
+            "bounded": self.bounded,
             "solver_time_s": round(self.solver_time, 3),
             "wall_s": round(self.wall, 3),
             "backends": self.backends,
@@ -106,6 +108,8 @@ def _split_key(key: str):
 def verify_function(key: str, contracts: dict, *, tier="quick", only_clauses=None) -> FunctionReport:
     c = contracts[key]
     rep = FunctionReport(key)
+    if c.get("list_bound") is not None:
+        rep.bounded = f"bounded-symbolic: every list (arguments, lists returned by callee contracts) has length <= {c['list_bound']}; contents fully symbolic"
     t0 = time.time()
     mod, qual = _split_key(key)
     oblig_timeout = c.get("timeout_ms", 10000 if tier == "quick" else 60000)
@@ -132,6 +136,8 @@ def verify_function(key: str, contracts: dict, *, tier="quick", only_clauses=Non
         ctx = Ctx(prefix, feas_timeout_ms=feas_timeout, oblig_timeout_ms=oblig_timeout)
         interp = Interp(ctx, contracts, target_key=key)
         interp.current_contract = c
+        interp.list_bound = c.get("list_bound")
+        interp.reveal = tuple(c.get("reveal", ()))
         rep.paths += 1
         try:
             _run_path(interp, ctx, c, key, rep)
@@ -151,6 +157,8 @@ def verify_function(key: str, contracts: dict, *, tier="quick", only_clauses=Non
             break
         for ob in ctx.obligs:
             rep.add(ob)
+        if os.environ.get("PYVC_DEBUG"):
+            print(f"[pyvc] path {rep.paths} len={len(ctx.decisions)} feasq={ctx.feas_queries} solver={ctx.solver_time:.2f}s obligs={len(ctx.obligs)} t={time.time()-t0:.1f}s", file=sys.stderr, flush=True)
         rep.solver_time += ctx.solver_time
         rep.inlined |= interp.inlined
         rep.used_contracts |= interp.used_contracts
@@ -277,6 +285,7 @@ def _check_frame(interp, ctx, c, qn, loc, old):
 def verify_lemma(name: str, *, tier="quick") -> FunctionReport:
     l = S.LEMMAS[name]
     rep = FunctionReport("lemma:" + name)
+    rep.bounded = l.get("bounded")
     t0 = time.time()
     worklist: list[list[bool]] = [[]]
     c = {"gl": l["gl"], "module": l["module"]}
@@ -286,6 +295,8 @@ def verify_lemma(name: str, *, tier="quick") -> FunctionReport:
         ctx = Ctx(prefix, oblig_timeout_ms=l.get("timeout_ms") or (10000 if tier == "quick" else 60000))
         interp = Interp(ctx, S.REGISTRY, target_key=None)
         interp.current_contract = c
+        if l.get("bounded"):
+            interp.list_bound = l.get("list_bound") or 3
         rep.paths += 1
         try:
             loc = {k: ty.fresh(ctx, k) for k, ty in l["vars"].items()}
